@@ -30,7 +30,11 @@ METHODS = [
     "with", "with_borrow", "with_borrow_mut", "try_with", "borrow", "borrow_mut", "try_borrow", "try_borrow_mut",
     "wait", "wait_timeout", "notify_one", "notify_all", "send", "recv", "try_recv", "try_send",
 ]
-PATTERN = re.compile(r"\.(" + "|".join(METHODS) + r")\(")
+# RwLock operations share their names with io::Read / io::Write methods, whose receivers are often
+# `&mut`: instrumented first, dropped (--no-rw) by the driver if the copy does not build with them
+RW_METHODS = ["read", "write", "try_read", "try_write"]
+PATTERN = re.compile(r"\.(" + "|".join(METHODS + RW_METHODS) + r")\(")
+PATTERN_NO_RW = re.compile(r"\.(" + "|".join(METHODS) + r")\(")
 
 INLINE_MOD = re.compile(r"^(\s*)(?:pub(?:\([^)]*\))?\s+)?mod\s+\w+\s*\{\s*$")
 
@@ -67,7 +71,7 @@ def instrument_source(text):
                 return m.group(0)
             n += 1
             return ".verif_sync()." + m.group(1) + "("
-        out.append(PATTERN.sub(repl, line))
+        out.append((PATTERN_NO_RW if NO_RW else PATTERN).sub(repl, line))
     return "\n".join(out), n
 
 
@@ -88,8 +92,14 @@ def add_use(text):
     return "\n".join(out)
 
 
+NO_RW = False
+
+
 def main():
-    src, dst = sys.argv[1], sys.argv[2]
+    global NO_RW
+    args = [a for a in sys.argv[1:] if a != "--no-rw"]
+    NO_RW = "--no-rw" in sys.argv[1:]
+    src, dst = args[0], args[1]
     if os.path.exists(dst):
         for item in ("src", "Cargo.toml", "Cargo.lock"):
             p = os.path.join(dst, item)
